@@ -23,9 +23,10 @@ MANIFEST = dict(
          'longer; includes the proof that the gamma_L formulas of fkm_load_distribution.py keep scaling monotone); refine_insensitive (non-reversal '
          'samples / repeated values change neither result, incl. concrete invariance of the maximum absolute load); N10_le_N50_le_N90 (P_RAM: knee '
          'shifted by 10^(lg f25 - (0.8 beta - 2) 0.08)) and N10_le_N50_le_N90_RAJ (life * 10^((lg f25 - (0.8 beta - 2) 0.155) |1/d|)) from beta '
-         'antitone; contracts_satisfiable + instance_not_degenerate.  The stage contracts (cycle structure under scaling / refinement, damage '
+         'antitone; contracts_satisfiable + instance_not_degenerate; row layout of per-point data (Assess/Layout.v): knee_rows_tiled_pointwise (rows ordered '
+         '(hysteresis, point): tiling the per-point knees gives row h*n+i the knee of point i), knee_rows_repeated_refuted, uniform_knee_hides_layout.  The stage contracts (cycle structure under scaling / refinement, damage '
          'parameter not smaller for larger loads, curve N antitone in P and isotone in the knee, accumulation antitone, gamma_L, beta antitone, which '
-         'aggregator the code uses) are checked on the implementation\'s stage outputs on every run; the property itself (P_RAM and P_RAJ, lifetime and '
+         'aggregator the code uses, which point\'s knee a row of the batch table uses) are checked on the implementation\'s stage outputs on every run; the property itself (P_RAM and P_RAJ, lifetime and '
          'infinite-life verdict) is decided by relations between assessment calls on every run.',
     note=common.TB_NOTE + 'the stages (HCM, binned notch law, P_RAM/P_RAJ, curves, accumulation) are abstract in Coq: their contracts are checked on sampled '
          'stage outputs, not proved here (C04/C05/C07/C09 model them); the P_RAJ crack-opening loop and its class summation are outside the model except for '
